@@ -329,7 +329,7 @@ def typed_view_flatten(repo, res, rule):
 
 
 def run(repo, res, tier):
-    res.rules = ["E1 tree-edit typestate on all exits", "E2 who-may-write tree attributes", "E3 cycle test dominates parent store", "E4 copy restores the parent link", "E5 typed flattenings share the traversal of children_all"]
+    res.rules = ["E1 tree-edit typestate on all exits", "E2 who-may-write tree attributes", "E3 cycle test dominates parent store", "E4 copy restores the parent link", "E5 typed flattenings share the traversal of children_all", "E5b no level-by-level flattening from typed views"]
     g = CallGraph(repo)
     raising = raising_functions(g)
     # method names that collide with container methods: only the repo meaning counts when the receiver is not a list
